@@ -359,6 +359,8 @@ func (st *state) value(a *prog.Arg, t reflect.Type) reflect.Value {
 		v = reflect.ValueOf(a.F)
 	case prog.Bool:
 		v = reflect.ValueOf(a.B)
+	case prog.Bytes:
+		v = reflect.ValueOf([]byte(a.S))
 	case prog.Nil:
 		return zero
 	case prog.Prim:
